@@ -509,12 +509,539 @@ def observe_probs(case):
 
 
 # ------------------------------------------------------------------------------------------------
+# extension: evolve (state-vector path), convert_polarized_state(use_symbolic / inverse), selection
+# (heralds / post-selection / photon filter / detectors) on polarised simulators and processors
+# ------------------------------------------------------------------------------------------------
+PS_OPS = ["==", "<", ">", "<=", ">="]
+
+
+def gen_ps(rng, m, depth):
+    """-> (PostSelect source string, Lean json)"""
+    if depth == 0 or rng.random() < 0.45:
+        modes = sorted(rng.sample(range(m), rng.randint(1, min(3, m))))
+        op = rng.choice(PS_OPS)
+        k = rng.randint(0, 1) if rng.random() < 0.8 else rng.randint(2, 3)
+        return f"[{','.join(map(str, modes))}] {op} {k}", {"c": modes, "op": op, "k": k}
+    kind = rng.choice(["and", "or", "or", "xor", "not"])
+    a, ja = gen_ps(rng, m, depth - 1)
+    if kind == "not":
+        return f"!({a})", {"not": ja}
+    b, jb = gen_ps(rng, m, depth - 1)
+    sym = {"and": "&", "or": "|", "xor": "^"}[kind]
+    return f"(({a}) {sym} ({b}))", {kind: [ja, jb]}
+
+
+def ps_eval(j, t):
+    """the post-selection expression evaluated directly (independent of PostSelect and of the Lean driver)"""
+    if j is True:
+        return True
+    if "c" in j:
+        x = sum(t[i] for i in j["c"])
+        return {"==": x == j["k"], "<": x < j["k"], ">": x > j["k"], "<=": x <= j["k"], ">=": x >= j["k"]}[j["op"]]
+    if "and" in j:
+        return ps_eval(j["and"][0], t) and ps_eval(j["and"][1], t)
+    if "or" in j:
+        return ps_eval(j["or"][0], t) or ps_eval(j["or"][1], t)
+    if "xor" in j:
+        return ps_eval(j["xor"][0], t) != ps_eval(j["xor"][1], t)
+    return not ps_eval(j["not"], t)
+
+
+def gen_heralds(rng, m, modes, allow2):
+    """heralds [[mode, expected]]; mostly consistent with what the input puts in the mode (a usual set-up), some not"""
+    r = rng.random()
+    k = 0 if r < 0.2 else (1 if r < 0.7 or m < 2 else min(2, m - 1 if m > 2 else 1))
+    k = min(k, m)
+    out = []
+    for i in sorted(rng.sample(range(m), k)):
+        n_i = mode_count(modes[i])
+        if rng.random() < 0.6 and n_i <= (2 if allow2 else 1):
+            v = n_i
+        else:
+            v = rng.choice([0, 1, 1] + ([2] if allow2 else []))
+        out.append([i, v])
+    return out
+
+
+def gen_sel(rng, m, modes, path, with_filter=True):
+    n = sum(mode_count(md) for md in modes)
+    heralds = gen_heralds(rng, m, modes, allow2=(path != "processor"))
+    h = sum(v for _, v in heralds)
+    ps = psj = None
+    if rng.random() < 0.55:
+        ps, psj = gen_ps(rng, m, rng.randint(0, 2))
+    sel = {"heralds": heralds, "ps": ps, "psj": psj if psj is not None else True,
+           "keep": False if path == "processor" else rng.random() < 0.5}
+    if not with_filter:
+        return sel
+    r = rng.random()
+    if r < 0.2:
+        v = 0
+    elif r < 0.4 and n >= h:
+        v = n - h
+    elif r < 0.5 and n >= h and path == "processor":
+        v = None                      # Processor.check_min_detected_photons_filter sets n - Σ heralds itself
+    elif r < 0.68:
+        v = rng.randint(1, max(1, n))
+    elif r < 0.9 and 1 <= h <= n:
+        v = rng.randint(n - h + 1, n)     # v ≤ n, Σ heralds ≤ n, but v + Σ heralds > n
+    else:
+        v = n + 1
+    sel["v"] = v
+    dets = None
+    if path == "processor" and rng.random() < 0.3:
+        dets = {str(i): rng.choice(["thr", "ppnr", "pnr"]) for i in range(m) if rng.random() < 0.6}
+    sel["dets"] = dets or None
+    return sel
+
+
+def sel_numbers(case, n):
+    sel = case["sel"]
+    h = sum(v for _, v in sel["heralds"])
+    v = sel.get("v", 0)
+    v_eff = n - h if v is None else v
+    return v_eff, h
+
+
+def parse_annotated(st):
+    """annotated output state of evolve -> (((nH, nV) per mode), anomaly or None)"""
+    key = []
+    idx = 0
+    bad = None
+    for k in range(st.m):
+        nh = nv = 0
+        for _ in range(st[k]):
+            a = str(st.get_photon_annotation(idx))
+            idx += 1
+            if a == "P:H":
+                nh += 1
+            elif a == "P:V":
+                nv += 1
+            else:
+                bad = bad or f"photon {idx - 1} of {st} carries annotation '{a}'"
+        key.append((nh, nv))
+    return tuple(key), bad
+
+
+def read_sv(sv):
+    out, bad = [], None
+    for st, amp in sv:
+        key, b = parse_annotated(st)
+        bad = bad or b
+        out.append((key, complex(amp)))
+    return out, bad
+
+
+def observe_evolve(case):
+    import perceval as pcvl
+    from perceval.utils import BasicState, PostSelect
+    from perceval.simulators import SimulatorFactory
+    c, lj = build(case["tree"])
+    bs = BasicState(state_text(case["modes"]))
+    out = {"lean": lj, "angles": read_back(bs), "counts": list(bs)}
+    try:
+        sim = SimulatorFactory.build(c, case["backend"])
+        out["layer"] = type(sim).__name__
+        sel = case.get("sel")
+        if sel:
+            sim.set_selection(postselect=PostSelect(sel["ps"]) if sel["ps"] else None,
+                              heralds={int(i): v for i, v in sel["heralds"]})
+            sim.keep_heralds(sel["keep"])
+        if case.get("pre"):
+            sim.probs(bs)             # the same object answered probs first (the inner circuit is re-written per query)
+        sv, bad = read_sv(sim.evolve(bs))
+        out["sv"] = sv
+        if bad:
+            out["anomaly"] = bad
+    except Exception as e:
+        out.update(exc(e))
+    return out
+
+
+def observe_convert(case):
+    import sympy as sp
+    from perceval.utils import BasicState, convert_polarized_state
+    bs = BasicState(state_text(case["modes"]))
+    out = {"angles": read_back(bs), "counts": list(bs)}
+
+    def conv(inverse):
+        sp_in, prep = convert_polarized_state(bs, use_symbolic=case["symbolic"], inverse=inverse)
+        if case["symbolic"]:
+            a = np.array([[complex(sp.N(e)) for e in row] for row in prep.tolist()], dtype=complex)
+        else:
+            a = np.array(prep, dtype=complex)
+        return list(sp_in), a
+    try:
+        out["input"], out["prep"] = conv(case["inverse"])
+        if case["inverse"]:
+            out["plain_prep"] = conv(False)[1]
+    except Exception as e:
+        out.update(exc(e))
+    return out
+
+
+def build_detector(kind):
+    import perceval as pcvl
+    if kind == "thr":
+        return pcvl.Detector.threshold()
+    if kind == "ppnr":
+        return pcvl.Detector.ppnr(3, 1)
+    return pcvl.Detector.pnr()
+
+
+def observe_select(case):
+    import perceval as pcvl
+    from perceval.utils import BasicState, PostSelect
+    from perceval.simulators import SimulatorFactory
+    c, lj = build(case["tree"])
+    bs = BasicState(state_text(case["modes"]))
+    sel = case["sel"]
+    out = {"lean": lj, "angles": read_back(bs), "counts": list(bs)}
+    try:
+        if case["path"] == "processor":
+            p = pcvl.Processor(case["backend"], c)
+            for i, v in sel["heralds"]:
+                p.add_herald(int(i), v)
+            if sel["ps"]:
+                p.set_postselection(PostSelect(sel["ps"]))
+            for i, kind in (sel.get("dets") or {}).items():
+                p.add(int(i), build_detector(kind))
+            p.with_polarized_input(bs)
+            if sel["v"] is not None:
+                p.min_detected_photons_filter(sel["v"])
+            res = p.probs()
+        else:
+            sim = SimulatorFactory.build(c, case["backend"])
+            out["layer"] = type(sim).__name__
+            sim.set_selection(min_detected_photons_filter=sel["v"],
+                              postselect=PostSelect(sel["ps"]) if sel["ps"] else None,
+                              heralds={int(i): v for i, v in sel["heralds"]})
+            sim.keep_heralds(sel["keep"])
+            res = sim.probs_svd(pcvl.SVDistribution(bs))
+        out["dist"] = {tuple(k): float(v) for k, v in res["results"].items()}
+        out["perf"] = (float(res["physical_perf"]), float(res["logical_perf"]))
+    except Exception as e:
+        out.update(exc(e))
+    return out
+
+
+# ---- direct oracles (numpy) -------------------------------------------------------------------------------------
+def oracle_prepare(angles, symbolic=False):
+    """-> ('ok', spatial input, preparation matrix) or ('inadmissible', reason): the statement's preparation"""
+    m = len(angles)
+    prep = np.eye(2 * m, dtype=complex)
+    s_in = []
+    for k, mode in enumerate(angles):
+        vecs, cnt = [], [0, 0]
+        for th, ph in mode:
+            c, s, p, q = trig4(th, ph)
+            v = (c, (p + 1j * q) * s)
+            hit = next((i for i, w in enumerate(vecs) if abs(w[0] - v[0]) + abs(w[1] - v[1]) < 1e-12), None)
+            if hit is None:
+                if len(vecs) == 2:
+                    return "inadmissible", "more than two polarisations in a mode", None
+                if vecs and abs(np.conj(vecs[0][0]) * v[0] + np.conj(vecs[0][1]) * v[1]) > 1e-5:
+                    return "inadmissible", "non-orthogonal polarisations in a mode", None
+                hit = len(vecs)
+                vecs.append(v)
+            cnt[hit] += 1
+        s_in += cnt
+        if vecs:
+            v1 = vecs[0]
+            v2 = vecs[1] if len(vecs) == 2 else (-np.conj(v1[1]), np.conj(v1[0]))
+            prep[2 * k:2 * k + 2, 2 * k:2 * k + 2] = [[v1[0], v2[0]], [v1[1], v2[1]]]
+    return "ok", s_in, prep
+
+
+def oracle_sv(lj, angles, sel=None):
+    """-> ('ok', {annotated key: amplitude}) with heralds / post-selection applied and re-normalised"""
+    status, s_in, prep = oracle_prepare(angles)
+    if status != "ok":
+        return status, s_in
+    w = oracle_doubled(lj) @ prep
+    m = w.shape[0] // 2
+    n = sum(s_in)
+    cols = [j for j, c in enumerate(s_in) for _ in range(c)]
+    norm_in = np.prod([math.factorial(c) for c in s_in])
+    out = {}
+    for t in fock_states(2 * m, n):
+        rows = [i for i, c in enumerate(t) for _ in range(c)]
+        amp = perm_bf(w[np.ix_(rows, cols)]) / math.sqrt(norm_in * np.prod([math.factorial(c) for c in t]))
+        key = tuple((t[2 * i], t[2 * i + 1]) for i in range(m))
+        if sel:
+            sp_t = [a + b for a, b in key]
+            if not (all(sp_t[int(i)] == v for i, v in sel["heralds"]) and ps_eval(sel["psj"], sp_t)):
+                continue
+            if not sel["keep"]:
+                drop = {int(i) for i, _ in sel["heralds"]}
+                key = tuple(kv for i, kv in enumerate(key) if i not in drop)
+        out[key] = out.get(key, 0) + complex(amp)       # `result += ampli * state`
+    if sel:
+        nrm = math.sqrt(sum(abs(a) ** 2 for a in out.values()))
+        out = {k: a / nrm for k, a in out.items()} if nrm > 1e-12 else {}
+    return "ok", out
+
+
+def oracle_select(lj, angles, case):
+    """the documented conditioning applied to the statement's distribution -> ('ok', results, phys, logic)"""
+    status, spec = oracle_probs(lj, angles)
+    if status != "ok":
+        return status, spec, None, None
+    sel = case["sel"]
+    n = sum(len(md) for md in angles)
+    v_eff, h = sel_numbers(case, n)
+    thr = v_eff + h
+    phys = sum(p for t, p in spec.items() if sum(t) >= thr)
+    kept = {}
+    for t, p in spec.items():
+        if sum(t) >= thr and all(t[int(i)] == v for i, v in sel["heralds"]) and ps_eval(sel["psj"], list(t)):
+            key = t if sel["keep"] else tuple(x for i, x in enumerate(t) if i not in {int(j) for j, _ in sel["heralds"]})
+            kept[key] = kept.get(key, 0.0) + p
+    mass = sum(kept.values())
+    res = {k: p / mass for k, p in kept.items()} if mass > 1e-13 else {}
+    return "ok", res, phys, (mass / phys if phys > 1e-13 else None)
+
+
+# ---- judging ---------------------------------------------------------------------------------------------------
+def cclose(a, b):
+    return abs(a - b) <= core.TOL + core.TOL * abs(b)
+
+
+def model_sv(entries, R=1.0):
+    """model entries [[key, perm, norm2], …] -> ({key: amplitude}, keys that several non-zero entries share)"""
+    out, cnt = {}, {}
+    for key, pamp, norm2 in entries:
+        k = tuple((a, b) for a, b in key)
+        z = complex(float(Fraction(pamp[0])), float(Fraction(pamp[1]))) / math.sqrt(float(Fraction(norm2)) * R)
+        out[k] = out.get(k, 0) + z
+        if abs(z) > 1e-12:
+            cnt[k] = cnt.get(k, 0) + 1
+    return out, {k for k, c in cnt.items() if c > 1}
+
+
+def compare_sv(real, expected):
+    """-> None or a description of the first difference"""
+    got = {}
+    for k, a in real:
+        got[k] = got.get(k, 0) + a
+    for k, a in got.items():
+        if k not in expected and abs(a) > 1e-9:
+            return f"output state {list(k)} (photons (P:H, P:V) per mode) is not an output of the model"
+    for k, z in expected.items():
+        if not cclose(got.get(k, 0j), z):
+            return f"amplitude of {list(k)} = {got.get(k, 0j)!r}, exact {z!r}"
+    return None
+
+
+def judge_evolve(chk, case, obs, rep):
+    replay = {"case": case, "state": state_text(case["modes"])}
+    sel = case.get("sel")
+    if "err" in rep:
+        return ("broken", "model-rejects", f"model rejects ({rep['err']}) an admissible evolve case", replay)
+    why = None
+    skip = False
+    if "err" in obs:
+        why = f"evolve raised {obs['err']}: {obs['msg']}"
+    elif "anomaly" in obs:
+        why = obs["anomaly"]
+    else:
+        if sel:
+            R = float(Fraction(rep["sel"]["R"]))
+            if R <= 1e-13:
+                expected, shared = {}, set()
+            else:
+                expected, shared = model_sv(rep["sel"]["sv"], R)
+            if shared:
+                # keep_heralds(False): the code ADDS the amplitudes of output states that differ only in the polarisation
+                # of a dropped heralded photon; the model keeps them apart (documented residue) — not compared
+                chk.branch("evolve-dropped-herald-coherent-sum")
+                skip = True
+        else:
+            expected, shared = model_sv(rep["sv"])
+        if not skip:
+            why = compare_sv(obs["sv"], expected)
+            if why is None and any(a > 0 and b > 0 and abs(z) > 1e-6 for k, z in obs["sv"] for a, b in k):
+                chk.branch("evolve-bunched-annotations")
+    if why is None:
+        return None
+    status, spec = oracle_sv(obs["lean"], obs["angles"], sel)
+    if status != "ok":
+        return ("broken", "oracle-inadmissible", f"direct oracle calls the input inadmissible ({spec}); {why}", replay)
+    what = f"factory({case['backend']}).evolve({state_text(case['modes'])})" + (f" with selection {sel}" if sel else "")
+    if "err" in obs:
+        return ("violation", "evolve-raises", f"{what} raised {obs['err']} ({obs['msg']})", replay)
+    if "anomaly" in obs:
+        return ("violation", "evolve-annotations", f"{what}: {obs['anomaly']}", replay)
+    got = {}
+    for k, a in obs["sv"]:
+        got[k] = got.get(k, 0) + a
+    bad = [k for k in set(got) | set(spec) if abs(got.get(k, 0) - spec.get(k, 0)) > 1e-6]
+    if bad:
+        k = bad[0]
+        pg, ps_ = {}, {}
+        for kk, a in got.items():
+            t = tuple(x + y for x, y in kk)
+            pg[t] = pg.get(t, 0.0) + abs(a) ** 2
+        for kk, a in spec.items():
+            t = tuple(x + y for x, y in kk)
+            ps_[t] = ps_.get(t, 0.0) + abs(a) ** 2
+        same_probs = all(abs(pg.get(t, 0) - ps_.get(t, 0)) < 1e-6 for t in set(pg) | set(ps_))
+        sig = "evolve-annotations" if same_probs else "evolve-amplitudes-differ"
+        return ("violation", sig, f"{what}: amplitude of the output with (P:H, P:V) photons per mode {list(k)} is "
+                f"{got.get(k, 0)!r}, the doubled-mode specification gives {spec.get(k, 0)!r} ({len(bad)} entries differ"
+                f"{'; the |amplitude|² per spatial state agree' if same_probs else ''})", replay)
+    return ("broken", "model-vs-code", "Lean model and implementation disagree on evolve but the direct oracle holds: "
+            + why, replay)
+
+
+def judge_convert(chk, case, obs, rep):
+    replay = {"case": case, "state": state_text(case["modes"])}
+    tag = f"convert_polarized_state({state_text(case['modes'])}, use_symbolic={case['symbolic']}, inverse={case['inverse']})"
+    if "err" in rep:
+        chk.branch("convert-symbolic-rejected" if case["symbolic"] else "convert-rejected")
+        if obs.get("err") == rep["err"]:
+            return None
+        status, s_in, prep = oracle_prepare(obs["angles"])
+        if status == "inadmissible":
+            return ("violation", "inadmissible-input-accepted", f"{tag} gave {obs.get('err', 'a result')} for an input "
+                    f"with {s_in}; expected {rep['err']}", replay)
+        if case["symbolic"] and "err" not in obs:
+            # the symbolic branch accepts a second polarisation only when `orth == 0` exactly
+            pm = obs["prep"]
+            if np.max(np.abs(pm @ pm.conj().T - np.eye(pm.shape[0]))) > 1e-9:
+                return ("violation", "symbolic-prep-not-unitary", f"{tag} returned a non-unitary preparation matrix",
+                        replay)
+        return ("broken", "model-rejects", f"model rejects ({rep['err']}), code gave {obs.get('err', 'a result')}", replay)
+    why = None
+    if "err" in obs:
+        why = f"raised {obs['err']}: {obs['msg']}"
+    else:
+        mp = np.array(core.unmat(rep["prep"]), dtype=complex)
+        if obs["input"] != rep["input"]:
+            why = f"spatial input {obs['input']} vs model {rep['input']}"
+        elif obs["prep"].shape != mp.shape or not np.allclose(obs["prep"], mp, rtol=core.TOL, atol=core.TOL):
+            why = "preparation matrix differs from the model's"
+    if why is None:
+        return None
+    status, s_in, prep = oracle_prepare(obs["angles"])
+    if status != "ok":
+        return ("broken", "oracle-inadmissible", f"direct oracle calls the input inadmissible ({s_in}); {why}", replay)
+    if "err" in obs:
+        two = any(len({a for a in mode}) > 1 for mode in obs["angles"])
+        if case["symbolic"] and two:
+            return ("broken", "model-vs-code", f"{tag} {why}; the model accepted two polarisations as exactly orthogonal",
+                    replay)
+        return ("violation", "convert-raises", f"{tag} {why} on an admissible input", replay)
+    if obs["input"] != s_in:
+        return ("violation", "spatial-input-differs", f"{tag}: spatial input {obs['input']}, expected {s_in}", replay)
+    if case["inverse"]:
+        pp = obs.get("plain_prep")
+        if pp is None or pp.shape != obs["prep"].shape or \
+                not np.allclose(obs["prep"] @ pp, np.eye(pp.shape[0]), atol=1e-8):
+            return ("violation", "inverse-prep-not-inverse", f"{tag}: the matrix returned with inverse=True is not the "
+                    "inverse of the matrix returned without", replay)
+        target = np.linalg.inv(prep)
+    else:
+        target = prep
+    if not np.allclose(obs["prep"], target, atol=1e-7):
+        return ("violation", "prep-differs", f"{tag}: preparation matrix differs from the Jones-vector specification by "
+                f"{float(np.max(np.abs(obs['prep'] - target))):.3g}", replay)
+    return ("broken", "model-vs-code", f"Lean model and implementation disagree but the direct oracle holds: {why}",
+            replay)
+
+
+def judge_select(chk, case, obs, rep):
+    replay = {"case": case, "state": state_text(case["modes"])}
+    sel = case["sel"]
+    n = sum(obs["counts"])
+    v_eff, h = sel_numbers(case, n)
+    corner = v_eff <= n and h <= n < v_eff + h
+    if corner:
+        chk.branch("select-filter-corner")
+    elif n < v_eff + h:
+        chk.branch("select-filter-rejects")
+    if "err" in rep:
+        return ("broken", "model-rejects", f"model rejects ({rep['err']}) an admissible selection case", replay)
+    why = None
+    model = {tuple(k): float(Fraction(p)) for k, p in rep["results"]}
+    mphys, mlogic = float(Fraction(rep["phys"])), float(Fraction(rep["logic"]))
+    if float(Fraction(rep["spec"]["retained"])) > 1e-12:
+        chk.branch("select-retained")
+    else:
+        chk.branch("select-nothing-retained")
+    if "err" in obs:
+        why = f"raised {obs['err']}: {obs['msg']}"
+    else:
+        dist = obs["dist"]
+        for t in set(dist) | set(model):
+            if not core.close(dist.get(t, 0.0), model.get(t, 0.0)):
+                why = f"P{list(t)} = {dist.get(t, 0.0)!r}, exact {model.get(t, 0.0)!r}"
+                break
+        if why is None and not core.close(obs["perf"][0], mphys):
+            why = f"physical_perf {obs['perf'][0]!r}, exact {mphys!r}"
+        if why is None and mphys > 0 and not core.close(obs["perf"][1], mlogic):
+            why = f"logical_perf {obs['perf'][1]!r}, exact {mlogic!r}"
+    if why is None:
+        return None
+    status, res, phys, logic = oracle_select(obs["lean"], obs["angles"], case)
+    if status != "ok":
+        return ("broken", "oracle-inadmissible", f"direct oracle calls the input inadmissible ({res}); {why}", replay)
+    what = (f"{case['path']}({case['backend']}) on {state_text(case['modes'])} with heralds {sel['heralds']}, "
+            f"post-selection {sel['ps']!r}, min_detected_photons_filter({sel.get('v')}), "
+            f"keep_heralds={sel['keep']}" + (f", detectors {sel['dets']}" if sel.get("dets") else ""))
+    if "err" in obs:
+        return ("violation", "selection-raises", f"{what} raised {obs['err']} ({obs['msg']})", replay)
+    dist = obs["dist"]
+    bad = [t for t in set(dist) | set(res) if abs(dist.get(t, 0.0) - res.get(t, 0.0)) > 1e-6]
+    perf_bad = abs(obs["perf"][0] - phys) > 1e-6 or (logic is not None and abs(obs["perf"][1] - logic) > 1e-6)
+    if bad or perf_bad:
+        if corner and dist and not res:
+            return ("violation", "herald-photon-filter-ignored",
+                    f"{what}: {n} photons enter, min_detected_photons_filter({v_eff}) counts the non-heralded modes only and "
+                    f"the heralds expect {h} more, so no output state qualifies (physical performance 0); the polarisation "
+                    f"layer returned {len(dist)} states with physical_perf {obs['perf'][0]:.6g} (its threshold is "
+                    f"max({v_eff}, {h}) instead of {v_eff} + {h})", replay)
+        if bad:
+            t = bad[0]
+            return ("violation", "selection-differs",
+                    f"{what}: P{list(t)} = {dist.get(t, 0.0):.9f}, the conditioned doubled-mode specification gives "
+                    f"{res.get(t, 0.0):.9f} ({len(bad)} states differ)", replay)
+        return ("violation", "selection-performance",
+                f"{what}: performances {obs['perf']}, the specification gives ({phys:.9f}, {logic})", replay)
+    return ("broken", "model-vs-code", "Lean model and implementation disagree on a selection but the direct oracle "
+            "holds: " + why, replay)
+
+
+# ------------------------------------------------------------------------------------------------
 # judging
 # ------------------------------------------------------------------------------------------------
+def lean_sel(sel, v_eff=0):
+    return {"heralds": [[int(i), v] for i, v in sel["heralds"]], "ps": sel["psj"], "minDet": v_eff,
+            "minPhotons": 0, "keepHeralds": sel["keep"]}
+
+
 def lean_req(case, obs):
-    if case["kind"] == "unitary":
+    kind = case["kind"]
+    if kind == "unitary":
         return {"op": "unitary", "tree": obs["lean"], "flag": case["flag"]}
+    if kind == "convert":
+        return {"op": "convert", "modes": lean_modes(obs["angles"]), "symbolic": case["symbolic"],
+                "inverse": case["inverse"]}
+    if kind == "evolve":
+        req = {"op": "evolve", "tree": obs["lean"], "modes": lean_modes(obs["angles"]), "fixed": True}
+        if case.get("sel"):
+            req["cond"] = lean_sel(case["sel"])
+        return req
+    if kind == "select":
+        v_eff, _ = sel_numbers(case, sum(obs["counts"]))
+        return {"op": "select", "tree": obs["lean"], "modes": lean_modes(obs["angles"]), "fixed": True,
+                "filterFixed": True, "sel": lean_sel(case["sel"], v_eff)}
     return {"op": "probs", "tree": obs["lean"], "modes": lean_modes(obs["angles"]), "fixed": True}
+
+
+OBSERVERS = {"unitary": lambda c: observe_unitary(c), "probs": lambda c: observe_probs(c),
+             "evolve": lambda c: observe_evolve(c), "convert": lambda c: observe_convert(c),
+             "select": lambda c: observe_select(c)}
 
 
 def judge_unitary(chk, case, obs, rep):
@@ -594,6 +1121,7 @@ def judge_probs(chk, case, obs, rep):
     states = [tuple(t) for t in rep["states"]]
     exact = [float(Fraction(p)) for p in rep["probs"]]
     ok = True
+    sv_only = False
     why = ""
     conv = obs["conv"]
     if "err" in conv:
@@ -621,8 +1149,26 @@ def judge_probs(chk, case, obs, rep):
                     break
         if ok and "perf" in obs and not (core.close(obs["perf"][0], 1.0) and core.close(obs["perf"][1], 1.0)):
             ok, why = False, f"performances {obs['perf']} for a lossless, unconditioned set-up"
+        if ok and "sv" in obs and "sv" in rep:
+            # evolve within a session: amplitudes and P:H / P:V annotations, not only the merged |amplitude|²
+            chk.branch("session-evolve-amplitudes")
+            bad_sv = obs.get("anomaly") or compare_sv(obs["sv"], model_sv(rep["sv"])[0])
+            if bad_sv:
+                ok, why, sv_only = False, bad_sv, True
     if ok:
         return None
+    if sv_only:
+        status, spec = oracle_sv(obs["lean"], obs["angles"])
+        got = {}
+        for k, a in obs["sv"]:
+            got[k] = got.get(k, 0) + a
+        if status == "ok" and ("anomaly" in obs or
+                               any(abs(got.get(k, 0) - spec.get(k, 0)) > 1e-6 for k in set(got) | set(spec))):
+            return ("violation", "evolve-annotations" if "anomaly" in obs else "evolve-amplitudes-differ",
+                    f"{case['path']}({case['backend']}).evolve({state_text(case['modes'])}): {why}; the |amplitude|² "
+                    "summed per spatial state agree with probs", replay)
+        return ("broken", "model-vs-code", "Lean model and implementation disagree on evolve amplitudes but the direct "
+                "oracle holds: " + why, replay)
     # disagreement → the property statement evaluated directly (numpy)
     status, spec = oracle_probs(obs["lean"], obs["angles"])
     if status != "ok":
@@ -666,14 +1212,13 @@ def judge_probs(chk, case, obs, rep):
 
 def judge(chk, case, rep=None, obs=None):
     if obs is None:
-        obs = observe_unitary(case) if case["kind"] == "unitary" else observe_probs(case)
+        obs = OBSERVERS[case["kind"]](case)
     if "build_err" in obs:
         return judge_unitary(chk, case, obs, {})
     if rep is None:
         rep = chk.lean.ask(lean_req(case, obs))
-    if case["kind"] == "unitary":
-        return judge_unitary(chk, case, obs, rep)
-    return judge_probs(chk, case, obs, rep)
+    return {"unitary": judge_unitary, "probs": judge_probs, "evolve": judge_evolve, "convert": judge_convert,
+            "select": judge_select}[case["kind"]](chk, case, obs, rep)
 
 
 # ------------------------------------------------------------------------------------------------
@@ -689,9 +1234,23 @@ def shrink(chk, case, sig):
 
     cur = copy.deepcopy(case)
     budget = 120
+    if cur["kind"] == "convert":
+        changed = True
+        while changed and budget > 0:
+            changed = False
+            for k, md in enumerate(cur["modes"]):
+                if md["kind"] == "vac" or budget <= 0:
+                    continue
+                cand = copy.deepcopy(cur)
+                cand["modes"][k] = {"kind": "vac"}
+                budget -= 1
+                if fails(cand):
+                    cur, changed = cand, True
+                    break
+        return cur
 
     def paths(t, pre=()):
-        if "leaf" in t:
+        if t is None or "leaf" in t:
             return
         yield pre
         for i, op in enumerate(t["ops"]):
@@ -705,14 +1264,14 @@ def shrink(chk, case, sig):
     changed = True
     while changed and budget > 0:
         changed = False
-        for p in list(paths(cur["tree"])):
+        for p in list(paths(cur.get("tree"))):
             node = at(cur["tree"], p)
             for i in range(len(node["ops"])):
                 if budget <= 0:
                     break
                 cand = copy.deepcopy(cur)
                 del at(cand["tree"], p)["ops"][i]
-                if cand["kind"] == "probs" and not requires(cand["tree"]):
+                if cand["kind"] in SIM_KINDS and not requires(cand["tree"]):
                     continue
                 if not has_empty(cur["tree"]) and has_empty(cand["tree"]):
                     continue
@@ -722,7 +1281,7 @@ def shrink(chk, case, sig):
                     break
             if changed:
                 break
-        if not changed and cur["kind"] == "probs":
+        if not changed and cur["kind"] in SIM_KINDS:
             for k, md in enumerate(cur["modes"]):
                 if md["kind"] == "vac" or budget <= 0:
                     continue
@@ -766,6 +1325,18 @@ def input_sig(modes):
 
 
 def count_case(chk, case):
+    if case["kind"] == "convert":
+        chk.count("kind", "convert")
+        chk.branch("convert-symbolic" if case["symbolic"] else "convert-numeric")
+        if case["inverse"]:
+            chk.branch("convert-inverse")
+            if any(md["kind"] == "two" for md in case["modes"]) and not case["symbolic"]:
+                chk.branch("convert-inverse-two")
+            if case["symbolic"]:
+                chk.branch("convert-symbolic-inverse")
+        ell = any(md["kind"] in ("one", "two") and (md["v"]["k"] == "ell" or (md["v"].get("l") or "H") in "DALR")
+                  for md in case["modes"])
+        return ("C", case["symbolic"], case["inverse"], input_sig(case["modes"])), ell
     tree = case["tree"]
     kinds = set()
     for leaf, _ in walk_leaves(tree):
@@ -789,7 +1360,33 @@ def count_case(chk, case):
         if case.get("pre"):
             chk.branch("unitary-recomputed")
         return ("U", case["flag"], tree_sig(tree)), nontrivial
-    chk.branch({"processor": "processor"}.get(case["path"], "factory-" + case["backend"].lower()))
+    if case["kind"] == "probs":
+        chk.branch({"processor": "processor"}.get(case["path"], "factory-" + case["backend"].lower()))
+    elif case["kind"] == "evolve":
+        chk.branch("evolve-stateless")
+        chk.branch("evolve-" + case["backend"].lower())
+        if case.get("pre"):
+            chk.branch("evolve-after-probs")
+        if any(md["kind"] == "two" for md in case["modes"]):
+            chk.branch("evolve-two-polarisations")
+        sel = case.get("sel")
+        if sel:
+            chk.branch("evolve-selection")
+            chk.branch("evolve-keep-heralds" if sel["keep"] else "evolve-drop-heralds")
+    else:
+        sel = case["sel"]
+        chk.branch("select-" + case["path"])
+        if sel["heralds"]:
+            chk.branch("select-heralds")
+        if sel["ps"]:
+            chk.branch("select-ps")
+        if sel.get("v") is None:
+            chk.branch("select-auto-filter")
+        if sel.get("dets"):
+            chk.branch("select-detectors")
+        if sel["keep"] and sel["heralds"]:
+            chk.branch("select-keep-heralds")
+        chk.count("select_filter", str(sel.get("v")))
     n = 0
     ell = False
     for md in case["modes"]:
@@ -805,6 +1402,14 @@ def count_case(chk, case):
     if classify_input(case) == "vacuum":
         chk.branch("vacuum")
     chk.count("photons", n)
+    if case["kind"] == "evolve":
+        sel = case.get("sel")
+        return ("E", case["backend"], tree_sig(tree), input_sig(case["modes"]),
+                None if not sel else (str(sel["heralds"]), sel["ps"], sel["keep"])), (nontrivial and ell)
+    if case["kind"] == "select":
+        sel = case["sel"]
+        return ("L", case["path"], case["backend"], tree_sig(tree), input_sig(case["modes"]),
+                (str(sel["heralds"]), sel["ps"], sel.get("v"), sel["keep"], str(sel.get("dets")))), (nontrivial and ell)
     return ("P", case["path"], case["backend"], tree_sig(tree), input_sig(case["modes"])), (nontrivial and ell)
 
 
@@ -817,7 +1422,7 @@ def report(chk, case, res):
         except Exception:
             small = case
     rp = {"case": small}
-    if small["kind"] == "probs":
+    if "modes" in small:
         rp["state"] = state_text(small["modes"])
     chk.fail(kind, sig, what, rp)
 
@@ -828,6 +1433,7 @@ def report(chk, case, res):
 # between.  The property is per (circuit, input): every reply must be the stateless one.
 # ------------------------------------------------------------------------------------------------
 QUERY_OPS = ("probs", "svd", "evolve")
+SIM_KINDS = ("probs", "evolve", "select")
 H_POL = {"k": "label", "l": "H"}
 
 
@@ -991,9 +1597,13 @@ def observe_query(obj, kind, op, bs):
             out["perf"] = (float(res["physical_perf"]), float(res["logical_perf"]))
         elif op == "evolve":
             dist = {}
-            for st, amp in obj.evolve(bs):
-                key = tuple(st)
-                dist[key] = dist.get(key, 0.0) + abs(complex(amp)) ** 2
+            sv, bad = read_sv(obj.evolve(bs))
+            for key, amp in sv:
+                t = tuple(a + b for a, b in key)
+                dist[t] = dist.get(t, 0.0) + abs(amp) ** 2
+            out["sv"] = sv
+            if bad:
+                out["anomaly"] = bad
         else:
             dist = {tuple(k): float(v) for k, v in obj.probs(bs).items()}
         out["dist"] = dist
@@ -1329,6 +1939,34 @@ def gen_case(chk, rng, max_m, max_depth, max_ops, nmax):
     return {"kind": "probs", "tree": tree, "modes": modes, "path": path, "backend": rng.choice(["SLOS", "Naive"])}
 
 
+def gen_case_ext(chk, rng, max_m, max_depth, max_ops, nmax):
+    """cases of the extension: evolve (amplitudes + annotations), convert_polarized_state(use_symbolic, inverse),
+    selection (heralds / post-selection / photon filter / detectors) on a polarised simulator or Processor"""
+    r = rng.random()
+    if r < 0.22:
+        m = rng.randint(1, max_m + 1)
+        malformed = rng.random() < 0.12
+        modes = gen_input(rng, m, nmax + 1, malformed=malformed, vacuum=rng.random() < 0.04)
+        return {"kind": "convert", "modes": modes, "symbolic": rng.random() < 0.4, "inverse": rng.random() < 0.6}
+    m = pick_m(rng, max_m)
+    tree = force_polarised(rng, gen_tree(rng, m, rng.randint(0, max_depth), rng.randint(1, max_ops)))
+    backend = rng.choice(["SLOS", "Naive"])
+    if r < 0.55:
+        modes = gen_input(rng, m, nmax, vacuum=rng.random() < 0.03)
+        case = {"kind": "evolve", "tree": tree, "modes": modes, "backend": backend}
+        if rng.random() < 0.4:
+            case["sel"] = gen_sel(rng, m, modes, "factory", with_filter=False)
+        if rng.random() < 0.2:
+            case["pre"] = True
+        return case
+    path = rng.choice(["processor", "processor", "factory"])
+    modes = gen_input(rng, m, nmax)
+    if path == "processor":
+        modes = for_processor(modes)
+    return {"kind": "select", "tree": tree, "modes": modes, "path": path, "backend": backend,
+            "sel": gen_sel(rng, m, modes, path)}
+
+
 class LockedLean:
     """the Lean driver behind a lock: one request stream, used by the pipeline thread and by judge/shrink"""
 
@@ -1393,7 +2031,7 @@ def prepare_batch(cases):
     reqs = []
     idx = []
     for i, case in enumerate(cases):
-        obs = observe_unitary(case) if case["kind"] == "unitary" else observe_probs(case)
+        obs = OBSERVERS[case["kind"]](case)
         obs_list.append(obs)
         if "build_err" not in obs:
             idx.append(i)
@@ -1411,13 +2049,19 @@ def finish_batch(chk, cases, ctx, reps):
     rep_of = dict(zip(idx, reps))
     for i, case in enumerate(cases):
         sig, nontrivial = count_case(chk, case)
-        sample = {"kind": case["kind"], "m": tree_size(case["tree"]),
-                  "leaves": [lf["t"] for lf, _ in walk_leaves(case["tree"])][:8]}
-        if case["kind"] == "probs":
-            sample["state"] = state_text(case["modes"])
-            sample["path"] = case["path"] + ":" + case["backend"]
+        if case["kind"] == "convert":
+            sample = {"kind": "convert", "state": state_text(case["modes"]), "symbolic": case["symbolic"],
+                      "inverse": case["inverse"]}
         else:
-            sample["flag"] = case["flag"]
+            sample = {"kind": case["kind"], "m": tree_size(case["tree"]),
+                      "leaves": [lf["t"] for lf, _ in walk_leaves(case["tree"])][:8]}
+            if case["kind"] in SIM_KINDS:
+                sample["state"] = state_text(case["modes"])
+                sample["path"] = case.get("path", "factory") + ":" + case["backend"]
+                if case.get("sel"):
+                    sample["sel"] = {k: v for k, v in case["sel"].items() if k != "psj"}
+            else:
+                sample["flag"] = case["flag"]
         chk.case(sig, nontrivial=nontrivial, sample=sample)
         res = judge(chk, case, rep=rep_of.get(i, {}), obs=obs_list[i])
         if res is not None:
@@ -1464,7 +2108,16 @@ def run(chk: core.Check):
         "session-h-after-prepared", "session-h-after-prepared-processor", "session-preparation-changes", "session-same-input-again",
         "session-circuit-changed", "session-same-input-new-circuit", "session-photon-number-changes",
         "session-after-rejected-input", "session-set", "session-add", "session-retune",
-        "session-factory-probs", "session-factory-svd", "session-factory-evolve", "session-processor"]
+        "session-factory-probs", "session-factory-svd", "session-factory-evolve", "session-processor",
+        # extension: state-vector path, conversion flags, selection
+        "evolve-stateless", "evolve-slos", "evolve-naive", "evolve-two-polarisations", "evolve-selection",
+        "evolve-keep-heralds", "evolve-drop-heralds", "evolve-after-probs", "evolve-bunched-annotations",
+        "session-evolve-amplitudes",
+        "convert-numeric", "convert-symbolic", "convert-inverse", "convert-inverse-two", "convert-symbolic-inverse",
+        "convert-symbolic-rejected", "convert-rejected",
+        "select-processor", "select-factory", "select-heralds", "select-ps", "select-auto-filter", "select-detectors",
+        "select-keep-heralds", "select-filter-corner", "select-filter-rejects", "select-retained",
+        "select-nothing-retained"]
     chk.lean = LockedLean(core.LeanDriver("C13"))
     check_labels(chk)
     rng = chk.rng
@@ -1478,6 +2131,7 @@ def run(chk: core.Check):
         handle_batch(chk, [c for c in corpus if c["kind"] != "session"])
         handle_sessions(chk, [c for c in corpus if c["kind"] == "session"])
     cases = [gen_case(chk, rng, max_m, max_depth, max_ops, nmax) for _ in range(n)]
+    cases += [gen_case_ext(chk, rng, max_m, max_depth, max_ops, nmax) for _ in range(chk.pick(360, 2600))]
     ns = chk.pick(120, 600)
     sessions = [gen_session(chk, rng, max_m, max_depth, max_ops, nmax, chk.pick(4, 6)) for _ in range(ns)]
     pipelined(chk, [cases[i:i + 100] for i in range(0, len(cases), 100)], prepare_batch, finish_batch)
